@@ -53,7 +53,7 @@ def _norm(sc):
 def _run(impl, sc, seed, frag, empty, offsets=None):
     dims = dict(sc["dims"], frag=frag, empty_rate=empty)
     sess = gen.make_session(impl, dims, seed, frag_offsets=offsets)
-    sess.sim.wrte_delay = sc["dims"].get("wrte_delay", 0.0)
+    sess.sim.wrte_delay = max(sess.sim.wrte_delay, sc["dims"].get("wrte_delay", 0.0))
     r = scen.Runner(sess, sc)
     try:
         res = r.run()
